@@ -93,6 +93,7 @@ func originProbes(c *cors.Config, r R) []string {
 				continue
 			}
 			nm := nearMisses(p)
+			out = append(out, p) // the pattern text itself, presented as an origin
 			out = append(out, nm[0], nm[2], nm[1])
 			out = append(out, nm[r.Intn(len(nm))], nm[r.Intn(len(nm))])
 			out = append(out, wrapPortOrigins(p)...)
@@ -176,6 +177,7 @@ func genGoodPreflight(c *cors.Config, r R) reqT {
 	case 3:
 		q.hdrs["Access-Control-Request-Private-Network"] = []string{"true"}
 	}
+	addExtraReqHeaders(r, q)
 	return q
 }
 
@@ -279,6 +281,7 @@ func genRequest(c *cors.Config, r R) reqT {
 	if r.chance(1, 4) {
 		q.hdrs[r.pick([]string{"X-Unrelated", "Cookie", "access-control-request-method", "Vary"})] = []string{r.pick([]string{"1", "PUT", "Origin"})}
 	}
+	addExtraReqHeaders(r, q)
 	return q
 }
 
